@@ -435,7 +435,8 @@ Section WithWF.
   Lemma PC_mono i k : 0 <= i -> 0 <= k -> i + 1 + k < n ->
     P m i < P m (i + 1 + k) /\ C m i < C m (i + 1 + k).
   Proof.
-    intros Hi Hk. revert k Hk. apply (natlike_ind (fun k => i + 1 + k < n -> _)).
+    intros Hi Hk. revert k Hk.
+    apply (natlike_ind (fun k => i + 1 + k < n -> P m i < P m (i + 1 + k) /\ C m i < C m (i + 1 + k))).
     - intros H. replace (i + 1 + 0) with (i + 1) by lia.
       destruct Hwf as (_ & _ & _ & Hs). apply Hs; fold n; lia.
     - intros k Hk IH H. destruct IH as (A & B); [lia|].
